@@ -25,6 +25,13 @@ ENGINES = [
 
 # id -> dict(engine, technique, text, note, design_ref)
 CHECKS = {
+    "C01": dict(
+        engine="enum+bfs",
+        technique="complete enumeration of the single-step table (15 current x 3 owners) x (14 requested x 3 requesters) on both orchestrators + explicit-state BFS over request sequences to closure, against a frozen specification transcribed from the docs",
+        text="Every cell of the single-step space is executed through set_invocation_status on the in-memory and the SQLite orchestrator (unreachable (status, owner) pairs planted), compared with vf/spec/lifecycle.json (transcribed from docs + SVG, never imports status.py) and cell by cell between the backends; failed requests must leave record, timestamp and history unchanged. Sequences: BFS over all 42 requests from every reachable (status, owner) state until no new state appears, each transition on a fresh invocation after replaying the path.",
+        note="Exceptions compared by class; when a request both lacks an edge and violates ownership either status error is accepted. Seeded random long sequences are not used (the BFS reaches closure, so longer sequences add no new state).",
+        design_ref="§2 C01",
+    ),
     "C12": dict(
         engine="enum",
         technique="exhaustive enumeration of (runner count, cycle, margin, epoch offset) x instants (grid + all slot boundaries +-1ulp) through the real can_run_atomic_service and should_run_atomic_service",
